@@ -99,13 +99,18 @@ def run_case(ctx, name, params):
         if name == "gated":
             S = sched.Scheduler(params["seed"], params["policy"], expected=min(workers, B))
         eg = xg = None
+        quiet = [False]          # True while a preliminary batch (not part of the judged schedule) is evaluated
         if S is not None:
             def eg(c):
+                if quiet[0]:
+                    return
                 S.note("obj_enter")
                 if "obj" in gates:
                     S.gate("obj_enter")
 
             def xg(c):
+                if quiet[0]:
+                    return
                 if "obj" in gates:
                     S.gate("obj_exit")
                 S.note("obj_exit")
@@ -128,6 +133,8 @@ def run_case(ctx, name, params):
                     slow = random_slow = ctx.rng("slow", params["seed"])
 
                     def on_event(nr, kind, sql):
+                        if quiet[0]:
+                            return
                         if "sql" in gates and kind != "connect":
                             S.gate("sql:" + kind, bounded=True)
                         if "slowtxn" in gates and kind == "commit:before":
@@ -140,6 +147,7 @@ def run_case(ctx, name, params):
                     proxy = sqlproxy.Proxy(on_event=on_event, timeout=0.05)
                 else:
                     proxy = sqlproxy.Proxy(timeout=0.05)
+                default_store = p1.data_store
                 p1.data_store = SqliteDataStore(p1, database_name=path)   # created before the proxy: not part of the schedule
                 proxy.install()
 
@@ -147,7 +155,7 @@ def run_case(ctx, name, params):
                     tl = threading.local()
 
                     def sync_individual(self, individual, *a, **kw):
-                        if getattr(tl, "depth", 0) > 0:          # the retry path re-enters: not a new activation
+                        if getattr(tl, "depth", 0) > 0 or quiet[0]:   # the retry path re-enters: not a new activation
                             return orig(self, individual, *a, **kw)
                         tl.depth = 1
                         with lk:
@@ -175,6 +183,22 @@ def run_case(ctx, name, params):
                     pass
             a1 = DummyAlgorithm(p1)
             a1.options["max_processes"] = workers
+            if use_db and r.random() < 0.4:
+                # the store is attached to the problem (or replaced by another one) only after the algorithm object has already
+                # evaluated a batch: "persists every evaluated design" speaks about the store attached when the batch is evaluated
+                final_store = p1.data_store
+                how = r.choice(["attached_late", "replaced"])
+                quiet[0] = True
+                try:
+                    p1.data_store = default_store if how == "attached_late" else SqliteDataStore(p1, database_name=path + ".first")
+                    a1.options["max_processes"] = r.choice([1, workers])
+                    a1.evaluate([Individual([r.uniform(-1, 1) for _ in range(n)]) for _ in range(r.randint(1, 3))])
+                    ctx.count("judged_batches_after_store_" + how)
+                finally:
+                    quiet[0] = False
+                    a1.options["max_processes"] = workers
+                    p1.data_store = final_store
+                    del p1.calls[:]
             stale_address = None
             if r.random() < 0.35:
                 # an earlier parallel batch on the same algorithm object was aborted by an exception in a worker; its designs
@@ -310,7 +334,7 @@ def run_case(ctx, name, params):
                         "grant_order_head": list(sig[:12]) if sig else None,
                         "threads_used": len({c.tid for c in p1.calls})}, name + "_" + params["store"], 2)
         finally:
-            for ext in ("", "-journal"):
+            for ext in ("", "-journal", ".first", ".first-journal"):
                 try:
                     os.unlink(path + ext)
                 except OSError:
